@@ -21,7 +21,7 @@ EXTENDS Replace, Json
 CONSTANTS SPNames, Flavours, MaxCopies, Fracs, Emit
 
 At(e, x, y, z) == [el |-> e, pos |-> <<x, y, z>>]
-Els == <<"C", "H", "N", "O", "F", "Si", "Zr">>
+Els == <<"C", "H", "N", "O", "F", "Zr", "Si">>     \* the last type is used by no structure (only by patterns)
 ElIdx(e) == CHOOSE i \in 1..Len(Els) : Els[i] = e
 MassOf(e) == CASE e = "H" -> 1007940 [] e = "C" -> 12010700 [] e = "N" -> 14006700 [] e = "O" -> 15999400
                [] e = "F" -> 18998403 [] e = "Si" -> 28085500 [] e = "Zr" -> 91224000
@@ -29,11 +29,13 @@ MassOf(e) == CASE e = "H" -> 1007940 [] e = "C" -> 12010700 [] e = "N" -> 140067
 SPdef(s) == CASE s = "CH"  -> <<At("C",0,0,0), At("H",1,0,0)>>
               [] s = "NCN" -> <<At("N",0,0,0), At("C",1,0,0), At("N",2,0,0)>>
               [] s = "CCH" -> <<At("C",0,0,0), At("C",1,0,0), At("H",1,1,0)>>
+              [] s = "CHN" -> <<At("C",0,0,0), At("H",0,1,0), At("N",1,0,0)>>
 
 \* replacement patterns: atoms, bonds, angles (0-based indices into atoms)
 RPnames(s) == CASE s = "CH"  -> {"CF", "COH", "E", "N1", "HC"}
-                [] s = "NCN" -> {"NSiN", "NSiO", "OSiO", "E"}
-                [] s = "CCH" -> {"CCF", "E"}
+                [] s = "NCN" -> {"NSiN", "NSiNr", "NSiO", "OSiO", "E"}
+                [] s = "CCH" -> {"CCF", "CCHa", "E"}
+                [] s = "CHN" -> {"HCF", "CHF"}
 RPdef(r) ==
   CASE r = "E"    -> [atoms |-> <<>>, bonds |-> <<>>, angles |-> <<>>]
     [] r = "CF"   -> [atoms |-> <<At("C",0,0,0), At("F",1,0,0)>>, bonds |-> <<<<0,1>>>>, angles |-> <<>>]
@@ -41,12 +43,18 @@ RPdef(r) ==
     [] r = "N1"   -> [atoms |-> <<At("N",0,0,0)>>, bonds |-> <<>>, angles |-> <<>>]
     [] r = "HC"   -> [atoms |-> <<At("H",1,0,0), At("C",0,0,0)>>, bonds |-> <<<<0,1>>>>, angles |-> <<>>]   \* same atoms, other order, bond listed backwards
     [] r = "NSiN" -> [atoms |-> <<At("N",0,0,0), At("Si",1,0,0), At("N",2,0,0)>>, bonds |-> <<<<0,1>>, <<1,2>>>>, angles |-> <<<<2,1,0>>>>]
+    [] r = "NSiNr" -> [atoms |-> <<At("N",2,0,0), At("Si",1,0,0), At("N",0,0,0)>>, bonds |-> <<<<0,1>>, <<1,2>>>>, angles |-> <<<<0,1,2>>>>]  \* shared atoms listed in the other order
+    [] r = "CCHa" -> [atoms |-> <<At("C",0,0,0), At("C",1,0,0), At("H",1,1,0)>>, bonds |-> <<<<1,0>>>>, angles |-> <<<<2,1,0>>>>]   \* all atoms retained; one angle redeclared backwards
+    [] r = "HCF"  -> [atoms |-> <<At("H",0,1,0), At("C",0,0,0), At("F",1,0,0)>>, bonds |-> <<<<1,2>>>>, angles |-> <<<<0,1,2>>>>]   \* shared atoms in another order
+    [] r = "CHF"  -> [atoms |-> <<At("C",0,0,0), At("H",0,1,0), At("F",1,0,0)>>, bonds |-> <<<<0,2>>>>, angles |-> <<>>]
     [] r = "NSiO" -> [atoms |-> <<At("N",0,0,0), At("Si",1,0,0), At("O",2,0,0)>>, bonds |-> <<<<0,1>>, <<1,2>>>>, angles |-> <<<<0,1,2>>>>]
     [] r = "OSiO" -> [atoms |-> <<At("O",0,0,0), At("Si",1,0,0), At("O",2,0,0)>>, bonds |-> <<<<0,1>>, <<1,2>>>>, angles |-> <<>>]
     [] r = "CCF"  -> [atoms |-> <<At("C",0,0,0), At("C",1,0,0), At("F",1,1,0)>>, bonds |-> <<<<1,0>>, <<1,2>>>>, angles |-> <<<<0,1,2>>>>]
 
 \* where copies of the search pattern may be put; (2,0,0) apart: NCN copies share their end atoms
-Offsets == <<<<0,0,0>>, <<2,0,0>>, <<0,2,0>>, <<4,0,0>>>>
+\* (the fifth placement is the pattern turned by 180 degrees about y at the origin: it shares the atoms on the y axis)
+Offsets == <<<<0,0,0>>, <<2,0,0>>, <<0,2,0>>, <<4,0,0>>, <<0,0,0>>>>
+Turn(c, p) == IF c = 5 THEN <<-p[1], p[2], -p[3]>> ELSE p
 TheCell == <<<<9,0,0>>, <<0,8,0>>, <<0,0,7>>>>
 
 NoT == [ix |-> <<>>, ty |-> <<>>, co |-> <<>>, xf |-> <<>>, xl |-> <<>>]
@@ -61,10 +69,10 @@ MkK(tag, atoms, bonds, angles, id0, grp, fl, cell) ==
    tlab |-> [t \in 1..Len(Els) |-> tag \o "." \o Els[t]],
    tpc |-> IF fl = "p" THEN [t \in 1..Len(Els) |-> "lj/cut 0." \o ToString(t) \o " 3.0 # " \o tag \o ".p" \o ToString(t-1)] ELSE <<>>,
    bond |-> IF bonds = <<>> THEN NoT
-            ELSE [ix |-> bonds, ty |-> [n \in 1..Len(bonds) |-> (n - 1) % 2], co |-> Coeffs(tag, "b", 2, fl),
+            ELSE [ix |-> bonds, ty |-> [n \in 1..Len(bonds) |-> (n - 1) % 2], co |-> Coeffs(tag, "b", 3, fl),   \* type 2 declared, unused
                   xf |-> [n \in 1..Len(bonds) |-> <<>>], xl |-> <<>>],
    angle |-> IF angles = <<>> THEN NoT
-             ELSE [ix |-> angles, ty |-> [n \in 1..Len(angles) |-> 0], co |-> Coeffs(tag, "n", 1, fl),
+             ELSE [ix |-> angles, ty |-> [n \in 1..Len(angles) |-> 0], co |-> Coeffs(tag, "n", 2, fl),   \* type 1 declared, unused
                    xf |-> [n \in 1..Len(angles) |-> <<>>], xl |-> <<>>],
    dihedral |-> NoT, improper |-> NoT, cell |-> cell, wf |-> "ok"]
 
@@ -76,29 +84,37 @@ Dedup(acc, rest) == IF rest = <<>> THEN acc
 RECURSIVE Cat(_)
 Cat(ss) == IF ss = <<>> THEN <<>> ELSE Head(ss) \o Cat(Tail(ss))
 
-Shifted(P, o) == [i \in 1..Len(P) |-> At(P[i].el, P[i].pos[1] + o[1] + 1, P[i].pos[2] + o[2] + 1, P[i].pos[3] + o[3] + 1)]
-StructAtoms(s, lay) == Dedup(<<At("Zr", 1, 0, 1)>>, Cat([c \in 1..Len(lay) |-> Shifted(SPdef(s), Offsets[lay[c]])]))
+Shifted(P, c) == LET o == Offsets[c]
+                IN [i \in 1..Len(P) |-> LET q == Turn(c, P[i].pos) IN At(P[i].el, q[1] + o[1] + 3, q[2] + o[2] + 1, q[3] + o[3] + 1)]
+StructAtoms(s, lay) == Dedup(<<At("Zr", 3, 0, 1)>>, Cat([c \in 1..Len(lay) |-> Shifted(SPdef(s), lay[c])]))
 IdxOf(atoms, a) == CHOOSE i \in 1..Len(atoms) : atoms[i] = a
-CopyTuple(s, lay, c) == LET A == StructAtoms(s, lay) IN [i \in 1..Len(SPdef(s)) |-> IdxOf(A, Shifted(SPdef(s), Offsets[lay[c]])[i])]
+CopyTuple(s, lay, c) == LET A == StructAtoms(s, lay) IN [i \in 1..Len(SPdef(s)) |-> IdxOf(A, Shifted(SPdef(s), lay[c])[i])]
 
 \* pre-existing terms: in every copy a bond between its atoms 1-2 (listed backwards in every second copy) and, for
 \* three-atom patterns, the angle 1-2-3; a bond from the bystander Zr to the first atom of the first copy
-StructBonds(s, lay) ==
+RECURSIVE DedupTerms(_, _)
+DedupTerms(acc, rest) == IF rest = <<>> THEN acc
+                         ELSE IF \E i \in 1..Len(acc) : acc[i] = Head(rest) \/ acc[i] = Rev(Head(rest)) THEN DedupTerms(acc, Tail(rest))
+                         ELSE DedupTerms(Append(acc, Head(rest)), Tail(rest))
+StructBonds(s, lay) == DedupTerms(<<>>,
   <<<<0, CopyTuple(s, lay, 1)[1] - 1>>>> \o
-  [c \in 1..Len(lay) |-> LET t == CopyTuple(s, lay, c) IN IF c % 2 = 1 THEN <<t[1] - 1, t[2] - 1>> ELSE <<t[2] - 1, t[1] - 1>>]
+  [c \in 1..Len(lay) |-> LET t == CopyTuple(s, lay, c) IN IF c % 2 = 1 THEN <<t[1] - 1, t[2] - 1>> ELSE <<t[2] - 1, t[1] - 1>>])
 StructAngles(s, lay) ==
   IF Len(SPdef(s)) < 3 THEN <<>>
-  ELSE [c \in 1..Len(lay) |-> LET t == CopyTuple(s, lay, c) IN <<t[1] - 1, t[2] - 1, t[3] - 1>>]
+  ELSE DedupTerms(<<>>, Cat([c \in 1..Len(lay) |-> LET t == CopyTuple(s, lay, c)
+                                   IN <<<<t[1] - 1, t[2] - 1, t[3] - 1>>, <<t[2] - 1, t[3] - 1, t[1] - 1>>>>]))   \* same atoms, permuted
 \* flavours: "p" both sides carry coefficient tables, "b" neither does, "m" the documented CIF workflow: the
 \* structure has atom types but no pair-coefficient table and no terms, the replacement pattern is parameterised
 StructK(s, lay, fl) == IF fl = "m" THEN MkK("S", StructAtoms(s, lay), <<>>, <<>>, 0, 0, "b", TheCell)
                        ELSE MkK("S", StructAtoms(s, lay), StructBonds(s, lay), StructAngles(s, lay), 0, 0, fl, TheCell)
 SPK(s) == MkK("SP", SPdef(s), <<>>, <<>>, 100, 3, "b", <<>>)
-RPK(r, fl) == MkK("RP", RPdef(r).atoms, RPdef(r).bonds, RPdef(r).angles, 200, 5, IF fl = "m" THEN "p" ELSE fl, <<>>)
+RPK(r, fl) == IF RPdef(r).atoms = <<>>
+              THEN [MkK("RP", <<>>, <<>>, <<>>, 200, 5, "b", <<>>) EXCEPT !.tel = <<>>, !.tmass = <<>>, !.tlab = <<>>]   \* Atoms()
+              ELSE MkK("RP", RPdef(r).atoms, RPdef(r).bonds, RPdef(r).angles, 200, 5, IF fl = "m" THEN "p" ELSE fl, <<>>)
 
 FracsQ == {<<1, 1>>, <<1, 2>>, <<0, 1>>}
 FracsT == {<<1, 1>>, <<1, 2>>, <<1, 3>>, <<2, 3>>, <<1, 4>>, <<0, 1>>}
-Layouts == {<<1>>, <<1, 2>>, <<1, 3>>, <<1, 2, 4>>, <<1, 2, 3>>}
+Layouts == {<<1>>, <<1, 2>>, <<1, 3>>, <<1, 5>>, <<1, 2, 4>>, <<1, 2, 3>>}
 Orders(n) == IF n = 1 THEN {<<1>>} ELSE IF n = 2 THEN {<<1, 2>>, <<2, 1>>, <<1>>, <<2>>}
              ELSE {<<1, 2, 3>>, <<3, 1, 2>>, <<2, 3>>, <<1, 3>>, <<2>>}
 
